@@ -9,6 +9,7 @@ import (
 	"time"
 
 	"github.com/inbucket/inbucket/v3/pkg/config"
+	"github.com/inbucket/inbucket/v3/pkg/policy"
 	"github.com/inbucket/inbucket/v3/pkg/storage"
 	"github.com/rs/zerolog/log"
 )
@@ -22,6 +23,10 @@ type Server struct {
 	notify    chan error      // Notify on fatal error.
 	tlsConfig *tls.Config     // TLS encryption configuration.
 	tlsState  *tls.ConnectionState
+
+	// AddrPolicy, when set, turns the name or address given with USER/APOP into the mailbox
+	// name, the same way mail delivery and the other read interfaces do.
+	AddrPolicy *policy.Addressing
 }
 
 // NewServer creates a new, unstarted, POP3 server.
